@@ -47,6 +47,8 @@ pub struct Verdict {
     pub execs: u32,
     /// number of oracle predictions compared with the implementation
     pub compared: u32,
+    /// the generator could not realise this case (parser sees something else than intended): not a test case
+    pub rejected: bool,
     pub fail: Option<Fail>,
 }
 #[derive(Clone, Debug)]
@@ -217,6 +219,10 @@ pub fn shrink_case<P: Prop>(p: &P, c: &P::Case, fail: &Fail) -> (P::Case, Fail) 
 
 pub fn process_case<P: Prop>(p: &P, acc: &mut Acc, c: &P::Case) {
     let v = p.check(c);
+    if v.rejected {
+        acc.generator_rejected += 1;
+        return;
+    }
     acc.evaluations += 1;
     acc.execs += v.execs as u64;
     acc.compared += v.compared as u64;
